@@ -116,7 +116,7 @@ LEVEL_TEXT = ('Machine-checked theorems for trees, paths and virtual roots of an
               'segment quotings) never changes an answer, nor does reusing one traverser object for a history of requests '
               '(the source facts say __call__ never writes to self). End to end: what a route pattern captured / its traverse= option '
               'generated is exactly the segment list the regenerated traverser walks (C02_route_star_to_resolution, '
-              'C02_route_option_to_resolution), and without a virtual-root header every field incl. `traversed` is as the property '
+              'C02_route_option_to_resolution, C02_route_str_to_resolution), and without a virtual-root header every field incl. `traversed` is as the property '
               'says (C02_gen_call_no_vroot_full). `traversed` is proved equal to the consumed segments without a virtual '
               'root or when the path is exhausted, and refuted otherwise (known finding). The percent/UTF-8 plumbing of '
               'traverse()/find_resource() is modelled here and validated by correspondence (its round trip is proved in C07).')
